@@ -164,6 +164,32 @@ func (w *World) loadContracts() error {
 			w.declClass("ghost:"+g.Name, "(Array Int "+g.Sort+")")
 		}
 	}
+	// heap classes of every scalar field of the module's struct types exist from the start (contracts and
+	// loop summaries may name them before the executor first touches them)
+	for path, tp := range w.tpkgs {
+		if !strings.HasPrefix(path, modPath+"/") {
+			continue
+		}
+		for _, name := range tp.Scope().Names() {
+			tn, ok := tp.Scope().Lookup(name).(*types.TypeName)
+			if !ok {
+				continue
+			}
+			st, ok := tn.Type().Underlying().(*types.Struct)
+			if !ok {
+				continue
+			}
+			for i := 0; i < st.NumFields(); i++ {
+				if srt := sortOf(st.Field(i).Type()); srt != "" {
+					cls := fieldClass(tn.Type(), i)
+					w.declClass(cls, "(Array Int "+srt+")")
+					if w.cs.Immutable[cls] {
+						w.classImm[cls] = true
+					}
+				}
+			}
+		}
+	}
 	// string library functions usable in specifications (the same uninterpreted symbols the executor uses)
 	for _, uf := range []struct {
 		name  string
